@@ -158,15 +158,16 @@ def spec(prop, tier):
         if q:
             return pair_runs(["F3", "V3"], ["T000", "T111", "T010", "T100", "T001", "NPS"], tier, 5) + \
                 elem_runs(["F3", "V3"], ["T111", "T010", "T100"], tier, 3) + \
+                elem_runs(["V2", "V4"], ["T100", "T101", "T011"], tier, 3) + \
                 [r for r in elem_runs(["F3", "V3"], ["T000"], tier, 4) if r["arena1"] == 1] + \
                 [r for r in elem_runs(["F3", "V3"], ["T000"], tier, 3) if r["arena1"] == 0]
         return pair_runs(["F1", "F3", "V1", "V3", "M2"], TRAIT_KINDS + ["AE", "NPS"], tier, 4) + \
-            elem_runs(["F1", "F3", "V1", "V3", "M2"], TRAIT_KINDS + ["AE", "NPS"], tier, 3)
+            elem_runs(["F1", "F3", "V1", "V2", "V3", "V4", "M2"], TRAIT_KINDS + ["AE", "NPS"], tier, 3)
     if prop == "C09":
         if q:
             return pair_runs(["P1", "F1", "F3", "V1", "V3"], ["AE", "NP"], tier, 5) + \
                 pair_runs(["P3", "F2", "F4", "V2", "V5", "V7", "M1", "M2", "P8", "P9", "F9", "V12"], ["AE", "NP"], tier, 4) + \
-                pair_runs(["F1", "F3", "V1", "V3"], ["PP"], tier, 4) + \
+                pair_runs(["F1", "F3", "V1", "V3"], ["PP"], tier, 4) + pair_runs(["F3", "V1"], ["T001", "T101"], tier, 4) + \
                 [r for r in pair_runs(["F1", "V1"], ["NP"], tier, 6) if r["arena1"] == 1] + \
                 wide_runs(["F3", "V1", "V3"], tier, mode="pair", depth=4, alloc="NP", arena1=1) + \
                 wide_runs(["F3", "V1", "V3"], tier, mode="pair", depth=4)
@@ -176,9 +177,12 @@ def spec(prop, tier):
             return hist_runs(["F1", "V1", "V3", "M1"], tier, mode="c10", depth=4) + \
                 hist_runs(["P1", "F3", "V2", "V5", "V7", "M2"], tier, mode="c10", depth=3) + \
                 big_runs(["F1", "V1", "V3", "M1"], tier, mode="c10", depth=3) + \
-                [R(l, "AE", "c10", depth=3, junk=1, fault_ops=2) for l in ("F1", "F3", "V1", "V3")]  # reserve that fails, then goes on
+                [R(l, "AE", "c10", depth=3, junk=1, fault_ops=2) for l in ("F1", "F3", "V1", "V3")] + \
+                pair_runs(["F1", "V1", "M1", "M2"], ["AE"], tier, 5) + \
+                [r for r in pair_runs(["M1", "M2"], ["NP"], tier, 5) if r["arena1"] == 1]  # (fail(k): a reserve that fails, then goes on; two-vector runs: reserve on copies and assignment targets)
         return hist_runs(ALL_LISTS, tier, allocs=("AE", "NP"), mode="c10", nmax=4, cmax=3, bmax=6, depth=4) + \
-            [R(l, "AE", "c10", depth=4, junk=1, fault_ops=2) for l in ("P1", "F1", "F3", "V1", "V3", "V5", "M1", "M2")]
+            [R(l, "AE", "c10", depth=4, junk=1, fault_ops=2) for l in ("P1", "F1", "F3", "V1", "V3", "V5", "M1", "M2")] + \
+            pair_runs(["F1", "F3", "V1", "V3", "V5", "M1", "M2", "M4"], ["AE", "NP"], tier, 5, nmax=3)
     if prop == "C11":
         pl = ["P1", "P3", "P4", "P14", "P15", "F1", "F3", "F4", "F5", "V1", "V3", "M2"]
         runs = [R(l, "AE", "proxy", nmax=3 if q else 4, cmax=1, bmax=4, depth=3 if q else 4, junk=1, fixed="2") for l in pl]
